@@ -24,25 +24,32 @@ CONSTANTS W,      \* world
           J,      \* jump set (set of pair states)
           NObj,   \* number of object slots
           GenN,   \* set of Nshells values tried by Generate
-          MaxN    \* additions / differences only while the summed range stays <= MaxN
+          MaxN,   \* additions / differences only while the summed range stays <= MaxN
+          G       \* the space group modulo lattice translations: OpsRT(W, 2), passed in so that it is computed once
 
-VARIABLES desc, st
-vars == <<desc, st>>
+VARIABLES desc, st,
+          mem     \* never changes: the table of reach sets (TLC does not cache constant definitions)
+vars == <<desc, st, mem>>
 Obj == 1..NObj
-G == OpsRT(W, 2)
 
 ReachD(n, og) == [kind |-> "reach", n |-> n, og |-> og, a |-> <<0, FALSE>>, b |-> <<0, FALSE>>]
 DiffD(da, db) == [kind |-> "diff", n |-> da.n + db.n, og |-> FALSE, a |-> <<da.n, da.og>>, b |-> <<db.n, db.og>>]
 OrigSet(og) == IF og THEN Zeros(W, C) ELSE {}
+ReachTab == mem
+DenT(T, d) == IF d.kind = "reach" THEN T[d.n] \cup OrigSet(d.og)
+              ELSE DiffSet(T[d.a[1]] \cup OrigSet(d.a[2]), T[d.b[1]] \cup OrigSet(d.b[2]))
+DenD(d) == DenT(ReachTab, d)
 
 Init == /\ desc = [o \in Obj |-> ReachD(0, FALSE)]
         /\ st = [o \in Obj |-> {}]
+        /\ mem = [n \in 0..MaxN |-> Reach(J, n)]
 
 \* StarSet.generate(N, originstates=og)
 Generate(o, N, og) ==
   /\ N # desc[o].n
   /\ desc' = [desc EXCEPT ![o] = ReachD(N, og)]
-  /\ st' = [st EXCEPT ![o] = Reach(J, N) \cup OrigSet(og)]
+  /\ st' = [st EXCEPT ![o] = ReachTab[N] \cup OrigSet(og)]
+  /\ UNCHANGED mem
 RegenerateSameN(o, N, og) == N = desc[o].n /\ UNCHANGED vars
 
 Summable(a, b) == /\ desc[a].kind = "reach" /\ desc[b].kind = "reach"
@@ -51,6 +58,7 @@ SumInto(a, b, c) ==
   \E og \in {desc[a].og, desc[b].og} :
      /\ desc' = [desc EXCEPT ![c] = ReachD(desc[a].n + desc[b].n, og)]
      /\ st' = [st EXCEPT ![c] = AddSets(st[a], st[b]) \cup OrigSet(og)]
+     /\ UNCHANGED mem
 \* objs[c] = objs[a] + objs[b]
 Add(a, b, c) == Summable(a, b) /\ SumInto(a, b, c)
 \* objs[a] += objs[b]
@@ -60,9 +68,11 @@ IAdd(a, b) == Summable(a, b) /\ SumInto(a, b, a)
 Copy(a, b) == /\ a # b
               /\ desc' = [desc EXCEPT ![b] = desc[a]]
               /\ st' = [st EXCEPT ![b] = st[a]]
+              /\ UNCHANGED mem
 CopyEmpty(a, b) == /\ a # b
                    /\ desc' = [desc EXCEPT ![b] = ReachD(0, FALSE)]
                    /\ st' = [st EXCEPT ![b] = {}]
+                   /\ UNCHANGED mem
 
 \* objs[c].diffgenerate(objs[a], objs[b])
 DiffGenerate(a, b, c) ==
@@ -71,6 +81,7 @@ DiffGenerate(a, b, c) ==
   /\ desc[a].n + desc[b].n <= MaxN
   /\ desc' = [desc EXCEPT ![c] = DiffD(desc[a], desc[b])]
   /\ st' = [st EXCEPT ![c] = DiffSet(st[a], st[b])]
+  /\ UNCHANGED mem
 \* ... must raise (ValueError) when an operand has no shells; nothing changes
 DiffGenerateErr(a, b, c) ==
   /\ desc[a].n < 1 \/ desc[b].n < 1
@@ -93,11 +104,26 @@ InputOK == NetworkOK(W, C, G, J)
 
 \* C24: states = Reach(N) (+ origin states); a sum equals generation with the summed range;
 \* a difference set holds every endpoint difference
-Refines == \A o \in Obj : st[o] = Den(W, C, J, desc[o])
+Refines == \A o \in Obj : st[o] = DenD(desc[o])
 
 \* C24: the states are a union of complete symmetry orbits, so the orbits partition them
 StarsPartition == \A o \in Obj : Closed(W, C, G, st[o])
 
-\* reachability may be defined with or without walks that pass over the solute: same set
-ReachDefinitionsAgree == \A N \in 0..MaxN : Reach(J, N) = ReachAvoid(J, N)
+\* constant-level theorems (checked once, as ASSUMEs of the generated MC module) -----------------
+\* every descriptor the machine can reach
+AllDescs ==
+  LET RD == {ReachD(n, og) : n \in 0..MaxN, og \in BOOLEAN}
+      DD == {DiffD(da, db) : da \in {d \in RD : d.n >= 1}, db \in {d \in RD : d.n >= 1}}
+  IN RD \cup {d \in DD : d.n <= MaxN}
+\* the tabulated denotation is the definitional one of Stars
+Theorems ==
+  LET T == [n \in 0..MaxN |-> Reach(J, n)]
+      GG == G
+      DT == [d \in AllDescs |-> DenT(T, d)]
+  IN /\ NetworkOK(W, C, GG, J)                                             \* InputOK
+     /\ \A d \in AllDescs : DT[d] = Den(W, C, J, d)                        \* DenotationAgrees
+     /\ \A d \in AllDescs : Closed(W, C, GG, DT[d])                        \* AllDenotationsClosed
+     /\ \A d \in AllDescs : OrbitPartition(W, C, GG, DT[d]) = StarsOf(W, C, GG, DT[d])   \* PartitionsAgree
+     /\ \A N \in 0..MaxN : T[N] = ReachAvoid(J, N)                          \* ReachDefinitionsAgree
+     /\ ActPSAgrees(W, C, GG, T[MaxN] \cup Zeros(W, C))                     \* ActionAgrees
 =============================================================================
